@@ -19,9 +19,10 @@ import vlib
 PROPERTIES = ["C15"]
 SPECDIR = os.path.join(vlib.SPEC, "bus")
 INVARIANTS = ["NoBlocked", "NoTimeout", "ExactlyOnceInOrder", "ReadersOK", "ReaderMatchesLoop", "NoLoss",
-              "EndComplete"]
+              "EndComplete", "CloseReturns"]
 TIMEOUT_MS = 4000          # per API call / per owed read; doubled for the confirmation run in isolation
 HEAP = "3g"
+MAX_STUCK = 3              # after this many runs with a stuck call / missing owed event stop executing more
 
 
 # ------------------------------------------------------------------------------------------------ scripts
@@ -202,15 +203,15 @@ def binding_selftest(lines):
 
 # ------------------------------------------------------------------------------------------------ executions
 
-TIMING = ("NoBlocked", "NoTimeout")
+TIMING = ("NoBlocked", "NoTimeout", "CloseReturns")
 
 
 def exec_scripts(vh, scripts, prefix, timeout_ms, stats):
     """Replay scripts on the real bus; returns (lines, {run number -> script}). A run in which a call did not
     return makes the harness stop (its goroutines are stuck); the remaining scripts run in a new process."""
-    lines, idx, i = [], {}, 0
+    lines, idx, i, stuck = [], {}, 0, 0
     d = vlib.scratch("bus-seq-")
-    while i < len(scripts):
+    while i < len(scripts) and stuck < MAX_STUCK:
         sp, tp = os.path.join(d, "s%d.ndjson" % i), os.path.join(d, "t%d.ndjson" % i)
         write_scripts(sp, scripts[i:], prefix)
         rc, _ = run_seq(vh, sp, tp, timeout_ms)
@@ -225,8 +226,11 @@ def exec_scripts(vh, scripts, prefix, timeout_ms, stats):
         i += len(got)
         if rc == 0:
             break
+        stuck += 1
         if not got:
             raise vlib.Inconclusive("vh bus seq stopped without a trace")
+    if stuck >= MAX_STUCK:
+        stats["scripts_not_run_after_stuck_runs"] = len(scripts) - i
     shutil.rmtree(d, ignore_errors=True)
     return lines, idx
 
@@ -234,8 +238,8 @@ def exec_scripts(vh, scripts, prefix, timeout_ms, stats):
 def exec_conc(vh, seed, first, runs, size, timeout_ms):
     lines = []
     d = vlib.scratch("bus-conc-")
-    cur = first
-    while cur < first + runs:
+    cur, stuck = first, 0
+    while cur < first + runs and stuck < MAX_STUCK:
         tp = os.path.join(d, "c%d.ndjson" % cur)
         rc, _ = run_conc(vh, seed, cur, first + runs - cur, size, tp, timeout_ms)
         got = split_runs(read_trace(tp))
@@ -244,6 +248,7 @@ def exec_conc(vh, seed, first, runs, size, timeout_ms):
         cur += max(1, len(got))
         if rc == 0:
             break
+        stuck += 1
     shutil.rmtree(d, ignore_errors=True)
     return lines
 
@@ -388,6 +393,10 @@ def run(pid, tier, seed, replay):
                 vlib.log("[C15] %s in run %s not reproduced alone with doubled timeout: ignored" % (f.invariant, meta))
                 continue
             f = again[0]
+        if f.invariant == "CloseReturns":
+            # the closer itself is stuck but no publisher / other subscriber was: outside the statement (DESIGN 5.1)
+            raise vlib.Inconclusive("a Close() call does not return although publishers and other subscribers are "
+                                    "not blocked: %s %s" % (describe(f), json.dumps(meta)))
         violations.append(to_violation(pid, f, meta))
     drift, _ = judge(corpus.lines, conform=True)
     for f in drift:
